@@ -365,43 +365,74 @@ func c17EscapeState(c *Check) {
 	})
 	msg := "no flag is raised in the backslash case: the escape state is not a flag of the scanner (derived from the previous character, an escaped backslash escapes the following character as well)"
 	for _, fl := range flags {
-		// raised inside `case '\\'` under `!flag`
+		// raised only for a backslash met while the flag is down – whatever form the test has (switch case, if chain):
+		// no raise is reachable in the world "the character is not a backslash", none in the world "the flag is up"
 		raisedInBackslash := false
-		ast.Inspect(r.FI.Decl.Body, func(x ast.Node) bool {
-			cc, ok := x.(*ast.CaseClause)
-			if !ok {
-				return true
-			}
-			isBS := false
-			for _, e := range cc.List {
-				if tv, has := info.Types[e]; has && tv.Value != nil {
-					if n, isInt := constInt(tv); isInt && n == '\\' {
-						isBS = true
-					}
-				}
-			}
-			if !isBS {
-				return true
-			}
-			for _, st := range cc.Body {
-				is, ok := st.(*ast.IfStmt)
-				if !ok {
-					continue
-				}
-				if u, isNot := ast.Unparen(is.Cond).(*ast.UnaryExpr); isNot && u.Op == token.NOT && objOf(info, u.X) == fl {
-					if nodeAssigns(is.Body, func(l, rhs ast.Expr) bool {
-						if objOf(info, l) != fl || rhs == nil {
-							return false
+		{
+			var chars []types.Object
+			ast.Inspect(r.FI.Decl.Body, func(x ast.Node) bool {
+				if rs, ok := x.(*ast.RangeStmt); ok && rs.Value != nil {
+					if tv, ok := info.Types[rs.X]; ok && isStringType(tv.Type) {
+						if o := objOf(info, rs.Value); o != nil {
+							chars = append(chars, o)
 						}
-						tv, has := info.Types[rhs]
-						return has && tv.Value != nil && tv.Value.String() == "true"
-					}) {
-						raisedInBackslash = true
 					}
 				}
+				return true
+			})
+			isChar := func(e ast.Expr) bool {
+				o := objOf(info, e)
+				for _, ch := range chars {
+					if o == ch {
+						return true
+					}
+				}
+				return false
 			}
-			return true
-		})
+			isBS := func(e ast.Expr) bool {
+				tv, has := info.Types[e]
+				if !has || tv.Value == nil {
+					return false
+				}
+				n, isInt := constInt(tv)
+				return isInt && n == '\\'
+			}
+			notBSWorld := r.F.World(func(atom ast.Expr) (bool, bool) {
+				if be, ok := ast.Unparen(atom).(*ast.BinaryExpr); ok && (be.Op == token.EQL || be.Op == token.NEQ) {
+					if (isChar(be.X) && isBS(be.Y)) || (isChar(be.Y) && isBS(be.X)) {
+						return be.Op == token.NEQ, true
+					}
+				}
+				return false, false
+			})
+			notBS := func(b *cfgBlock, i int) bool {
+				if cond, isCase := r.F.Cond(b); cond != nil && isCase {
+					if tag := r.F.CaseTag(b); tag != nil && isChar(tag) && isBS(cond) {
+						return i == 0
+					}
+					return false
+				}
+				return notBSWorld(b, i)
+			}
+			flagUp := r.F.World(func(atom ast.Expr) (bool, bool) {
+				if objOf(info, atom) == fl {
+					return true, true
+				}
+				return false, false
+			})
+			raises := r.Assigns(func(l, rhs ast.Expr) bool {
+				if objOf(info, l) != fl || rhs == nil {
+					return false
+				}
+				tv, has := info.Types[rhs]
+				return has && tv.Value != nil && tv.Value.String() == "true"
+			})
+			if len(raises) > 0 {
+				_, f1 := r.F.Reach(Query{From: r.Entry(), Inclusive: true, Target: isPt(raises), AvoidEdge: notBS})
+				_, f2 := r.F.Reach(Query{From: r.Entry(), Inclusive: true, Target: isPt(raises), AvoidEdge: flagUp})
+				raisedInBackslash = !f1 && !f2
+			}
+		}
 		if !raisedInBackslash {
 			continue
 		}
